@@ -355,6 +355,13 @@ def fam_split(thorough=False):
         # asset window that leaves an interval empty
         a = [F.contract(T, 'n1', -1, 1, pr1, ec=1, ws=1, we=3), slack(T, 'n1', 3, lo=-2, hi=2)]
         out.append(F.make_cfg(ids(), T, a, split=sp, refines=True, interval=iv, coupling='none'))
+        # order books whose orders each lie inside one interval (so nothing couples the intervals): in every later interval the earlier
+        # orders are outside that interval's grid; order book first / last in the portfolio
+        orders = [(0, 1, 1, 2), (1, size, -1, 7), (size, size + 1, 2, 1), (size, min(2 * size, T), -1, 6)]
+        for first, full in itertools.product((True, False), (False, True)):
+            ob = F.orderbook(T, 'n1', orders, fullexec=full, fden=2)
+            sl = slack(T, 'n1', pr2, lo=-2, hi=2, ec=1)
+            out.append(F.make_cfg(ids(), T, [ob, sl] if first else [sl, ob], split=sp, refines=True, interval=iv, coupling='none'))
         # storages with start level = end level
         for st, pr in itertools.product([dict(size=2, cin=1, cout=1), dict(size=2, cin=2, cout=1, start=1, end=1, eff=(1, 2)),
                                          dict(size=2, cin=1, cout=1, inflow=1, start=1, end=1, cout_=0)], (pr1, pr2)):
